@@ -36,11 +36,9 @@ _WORKERS: Optional[List[Worker]] = None
 
 
 def workers() -> List[Worker]:
-    global _WORKERS
-    if _WORKERS is None:
-        _WORKERS = [Worker(fb, oj) for fb in (False, True) for oj in (True, False)]
-        atexit.register(lambda: [w.close() for w in (_WORKERS or [])])
-    return _WORKERS
+    from ..backend_worker import get_workers
+
+    return get_workers(tuple((fb, oj) for fb in (False, True) for oj in (True, False)))
 
 
 def wname(w: Worker) -> str:
